@@ -10,6 +10,9 @@ if prop.endswith("b"):          # second round of sub-agents: /tmp/wt/<ID>b_out,
 elif prop.endswith("c"):        # third round: seeds numbered from 6
     prop = prop[:-1]
     dst_k = str(int(k) + 5)
+elif prop.endswith("d"):        # fourth round: seeds numbered from 9
+    prop = prop[:-1]
+    dst_k = str(int(k) + 8)
 else:
     dst_k = k
 summary = sys.argv[5] if len(sys.argv) > 5 else ""
